@@ -76,6 +76,16 @@ def legacyEdited (sc : Bytes) (tx : Tx) (i w : Nat) : Tx :=
                    vin := zeroOtherSequences t1.vin i } else t1
   if w &&& Gen.SigHash.ACP_MASK ≠ 0 then { t2 with vin := [t2.vin.getD i dfltIn] } else t2
 
+/-- `sig_hash.legacy` past the index check and the SIGHASH_SINGLE early return: the width checks of what is
+    left of the copy, then hash256 of its serialization and the four hash-type bytes -/
+def legacyChecked (S : Bytes → Bytes) (sc : Bytes) (tx : Tx) (i w : Nat) (sht : Bytes) : R Bytes := do
+  let t := legacyEdited sc tx i w
+  forAll checkIn t.vin
+  forAll (fun o => assertCAmount o.value) t.vout
+  assert4 t.version
+  assert4 t.lockTime
+  pure (hash256 S (serTx t ++ sht))
+
 /-- `sig_hash.legacy` -/
 def legacy (S : Bytes → Bytes) (sc : Bytes) (tx : Tx) (i ht : Int) : R Bytes := do
   let sht ← Gen.SigHash.serialized_hash_type ht
@@ -83,13 +93,8 @@ def legacy (S : Bytes → Bytes) (sc : Bytes) (tx : Tx) (i ht : Int) : R Bytes :
   let w := word ht
   if baseType w = Gen.SigHash.SINGLE ∧ i ≥ tx.vout.length then
     -- the sig_hash single bug (NONE and SINGLE exclude each other, so the copy's vout is tx's)
-    return Gen.SigHash.SINGLE_BUG_DIGEST
-  let t := legacyEdited sc tx i w
-  forAll checkIn t.vin
-  forAll (fun o => assertCAmount o.value) t.vout
-  assert4 t.version
-  assert4 t.lockTime
-  pure (hash256 S (serTx t ++ sht))
+    pure Gen.SigHash.SINGLE_BUG_DIGEST
+  else legacyChecked S sc tx i w sht
 
 /-! ### PrecomputedTxData -/
 
@@ -157,39 +162,48 @@ def segwitV0 (S : Bytes → Bytes) (sc : Bytes) (tx : Tx) (i ht amount : Int)
 
 def intMem (x : Int) (l : List Nat) : Bool := l.any (fun n => (n : Int) == x)
 
+/-- the transaction-wide hashes of `taproot`: "only if this hash type commits to any of them" -/
+def tapMid (S : Bytes → Bytes) (tx : Tx) (prevouts : List TxOut) (w : Nat) (pre : Option Precomputed) : R Bytes :=
+  if !tapAcp w ∨ (!tapNone w && !tapSingle w) then do
+    let p ← match pre with
+      | some p => pure p
+      | none => precompute S tx prevouts
+    pure ((if !tapAcp w then p.shaPrevouts ++ (p.shaAmounts ++ (p.shaScriptPubKeys ++ p.shaSequences)) else [])
+      ++ (if (!tapNone w && !tapSingle w) then p.shaOutputs else []))
+  else pure []
+
+/-- the data about this input: outpoint, spent amount and script, sequence under ANYONECANPAY, else the index -/
+def tapOwn (tx : Tx) (i : Nat) (prevouts : List TxOut) (w : Nat) : R Bytes :=
+  if tapAcp w then
+    -- `prevouts[input_index]`: an IndexError were the list short (`taproot` has refused that already)
+    match prevouts[i]? with
+    | none => throw .foreign
+    | some po => do
+      let a ← serOutPointC (tx.vin.getD i dfltIn).prev
+      let b ← serCAmount po.value
+      let d ← ser4 (tx.vin.getD i dfltIn).sequence
+      pure (a ++ (b ++ (varBytes po.spk ++ d)))
+  else pure (le4 i)
+
+/-- sha_single_output -/
+def tapSgl (S : Bytes → Bytes) (tx : Tx) (i w : Nat) : R Bytes :=
+  if tapSingle w then do
+    let b ← serOutputC (tx.vout.getD i blankOut)
+    pure (S b)
+  else pure []
+
 /-- `sig_hash.taproot` past its refusals: `i` an input of the transaction, `w` one of the seven types -/
 def taprootChecked (S : Bytes → Bytes) (tx : Tx) (i : Nat) (prevouts : List TxOut) (w : Nat) (extFlag : Int)
     (annex msgExt : Bytes) (pre : Option Precomputed) : R Bytes := do
-  let acp := tapAcp w
-  let allOutputs := !tapNone w && !tapSingle w
-  let annexPresent := !annex.isEmpty
   let v ← ser4 tx.version
   let l ← ser4 tx.lockTime
-  let mid ← if !acp ∨ allOutputs then do
-      let p ← match pre with
-        | some p => pure p
-        | none => precompute S tx prevouts
-      pure ((if !acp then p.shaPrevouts ++ (p.shaAmounts ++ (p.shaScriptPubKeys ++ p.shaSequences)) else [])
-        ++ (if allOutputs then p.shaOutputs else []))
-    else pure []
-  let st ← Gen.SigHash.serialized_spend_type extFlag (if annexPresent then 1 else 0)
-  let own ← if acp then
-      -- `prevouts[input_index]`: an IndexError were the list short (`taproot` has refused that already)
-      match prevouts[i]? with
-      | none => throw .foreign
-      | some po => do
-        let a ← serOutPointC (tx.vin.getD i dfltIn).prev
-        let b ← serCAmount po.value
-        let d ← ser4 (tx.vin.getD i dfltIn).sequence
-        pure (a ++ (b ++ (varBytes po.spk ++ d)))
-    else pure (le4 i)
-  let ann := if annexPresent then S (varBytes annex) else []
-  let sgl ← if tapSingle w then do
-      let b ← serOutputC (tx.vout.getD i blankOut)
-      pure (S b)
-    else pure []
+  let mid ← tapMid S tx prevouts w pre
+  let st ← Gen.SigHash.serialized_spend_type extFlag (if !annex.isEmpty then 1 else 0)
+  let own ← tapOwn tx i prevouts w
+  let sgl ← tapSgl S tx i w
   pure (taggedWith S Gen.SigHash.TAG_SIGHASH
-    (Gen.SigHash.EPOCH ++ ([UInt8.ofNat w] ++ (v ++ (l ++ (mid ++ (st ++ (own ++ (ann ++ (sgl ++ msgExt))))))))))
+    (Gen.SigHash.EPOCH ++ ([UInt8.ofNat w] ++ (v ++ (l ++ (mid ++ (st ++ (own ++
+      ((if !annex.isEmpty then S (varBytes annex) else []) ++ (sgl ++ msgExt))))))))))
 
 /-- `sig_hash.taproot` -/
 def taproot (S : Bytes → Bytes) (tx : Tx) (i : Int) (prevouts : List TxOut) (ht extFlag : Int)
